@@ -87,6 +87,19 @@ def form_of(X, form):
         return X.astype(np.float32)
     if form == "list":
         return X.tolist()
+    # valid but degenerate data: a feature that never varies (an unobserved one-hot level), repeated samples, large units
+    if form == "zero_column":
+        X = X.copy()
+        X[:, -1] = 0.0
+    if form == "constant_column":
+        X = X.copy()
+        X[:, 0] = 2.5
+    if form == "duplicate_rows":
+        X = X.copy()
+        X[1] = X[0]
+        X[-1] = X[0]
+    if form == "scaled_1e3":
+        X = X * 1e3
     return X
 
 
@@ -130,7 +143,7 @@ def fit_case(case):
         v.append(violation("labels_wrong_shape_or_range", {"labels": labs, "n_clusters": K}, **where))
     P = np.array(model.predict_proba(Xin), copy=True)
     P_again = np.array(model.predict_proba(Xin), copy=True)
-    if P.shape == P_again.shape and not np.array_equal(P, P_again):
+    if P.shape == P_again.shape and not np.array_equal(P, P_again, equal_nan=True):
         v.append(violation("predict_proba_changes_between_two_identical_calls", {"first": P, "second": P_again}, **where))
     if P.shape != (n, K) or not np.all(np.isfinite(P)) or np.any(P < 0) or not np.allclose(P.sum(1), 1, atol=1e-9):
         v.append(violation("predict_proba_rows_not_probability_vectors", {"P": P}, **where))
@@ -207,8 +220,14 @@ def explorers(tier, seed):
             n, d = shape
             ax = axes_for(name, n, d)
             base = {"random_state": seed}
-            for form in ("float64", "fortran", "int", "float32", "list"):
+            for form in ("float64", "fortran", "int", "float32", "list", "zero_column", "constant_column", "duplicate_rows", "scaled_1e3"):
                 cases.append((name, dict(base), shape, form, seed))
+            if name in M.SPARSE and d >= 2:
+                # a never-varying feature receives an exactly zero gradient: with a strong penalty its weights (alone, as a singleton group,
+                # or inside a declared group) are shrunk to exactly zero and stay there for the remaining epochs
+                for var in ({"alpha": 50.0}, {"alpha": 50.0, "groups": [[0, 1]] if d > 2 else [[0]]}, {"alpha": 50.0, "groups": [[d - 1]]},
+                            {"alpha": 0.5, "max_iter": 12, "groups": [[0], [d - 1]]}, {"alpha": 50.0, "solver": "sgd"}):
+                    cases.append((name, dict(base, **var), shape, "zero_column", seed))
             for a, vals in ax.items():
                 for val in vals:
                     s = dict(base)
